@@ -115,7 +115,7 @@ fn occur_check(id1: IntermediateId, t2: TypeNodeId) -> bool {
                 .as_slice(),
         ),
         Type::Union(types) => vec_cls(types),
-        Type::Boxed(b) => cls(*b),
+        Type::Boxed(b) | Type::Code(b) | Type::Ref(b) => cls(*b),
         _ => false,
     }
 }
